@@ -123,7 +123,7 @@ CLAIMS = {
     "C20": {
         "technique": "artist inspection: matplotlib (Agg) Axes artists, plotly traces and captured stdout compared with the histogram's data; snapshot before / after every plotting call",
         "text": ("1D / 2D histograms and collections are plotted with every matplotlib, plotly and ASCII kind and the density / cumulative / errors / show_values / show_zero / "
-                 "ticks options; bar rectangles, line / step / scatter data, fill polygons, error-bar segments, map rectangles and colours, image array and extent, texts, "
+                 "ticks / cmap= / logarithmic colour scale (image, bar, scatter) options; bar rectangles, line / step / scatter data, fill polygons, error-bar segments, map rectangles and colours, image array and extent, texts, "
                  "titles, labels, ticks, traces and stdout are compared with edges / centres and frequencies / densities / running sums / +-sqrt(errors2); plotting must "
                  "not modify the histogram (also checked passively under the repository's tests); refusals and TimeTickHandler ticks are checked. Exploration."),
     },
